@@ -36,6 +36,8 @@ import (
 // the requests of a DA block (header requests, data requests or both are lost: the call returns only when the caller
 // gives it up); afterwards the DA layer accepts. After a lost request the closing phase lasts lostHorizon DA blocks
 // longer, in all of which the DA layer accepts everything it is sent.
+// Part 3 (long_test.go): outages LONGER than the retry budget of one submission call (read from the code under test),
+// measured in failed submission attempts per stream, with boundary values around that budget.
 
 const daBlock = time.Second
 
@@ -90,6 +92,15 @@ type outcome struct {
 	events  []string
 	sig     string
 	lost    int // DA requests of this history that got no answer
+	// part 3: failed attempts the long outage inflicted on the header / the data stream, and whether one stream used up a whole retry budget
+	longFailed [2]int
+	exhausted  bool
+	also       []also // violations after which the run went on (the listed residual finding; everything after it stays checked)
+}
+
+type also struct {
+	fail *world.Fail
+	tags []string
 }
 
 // spec bounds one part of the exploration. lostBlocks = 0: part 1 (every request is answered). lostBlocks = k > 0:
@@ -99,6 +110,7 @@ type outcome struct {
 type spec struct {
 	depth      int
 	lostBlocks int
+	long       *longSpec // part 3: the depth steps are a prefix, then comes one LONG outage (long_test.go)
 }
 
 // lostPlacements lists the non-empty sets of at most k step indices out of 1..depth-1, in a fixed order. Step 0 is
@@ -178,6 +190,10 @@ func bubble(c *explore.Ctx, sp spec, sh sharder) (out outcome) {
 			lostAt[pos] = 1 + c.Choose("config", 3)
 		}
 	}
+	var lg *longRun
+	if sp.long != nil {
+		lg = chooseLong(c, sp.long)
+	}
 	p := world.Params{InitialHeight: initial, MaxPending: limit, DABlockTime: daBlock, MempoolTTL: 2, GenesisTime: t0.Add(-time.Hour)}
 	env := world.NewEnv()
 	clock := t0.Add(-time.Hour)
@@ -202,6 +218,16 @@ func bubble(c *explore.Ctx, sp spec, sh sharder) (out outcome) {
 	env.DA.SubmitPolicy = func(blobs [][]byte) world.SubmitAnswer {
 		if stopping {
 			return world.SubmitCanceled
+		}
+		if lg != nil && lg.on && len(blobs) > 0 {
+			if it, ok := classify(blobs[0]); ok {
+				if ans, hit := lg.answer(it.header); hit {
+					if ans == world.SubmitNoAnswer {
+						lostCalls++
+					}
+					return ans
+				}
+			}
 		}
 		if outage {
 			return world.SubmitGenericError
@@ -271,6 +297,9 @@ func bubble(c *explore.Ctx, sp spec, sh sharder) (out outcome) {
 		}
 		if restartAfterAck {
 			tg = append(tg, "restart-after-da-acceptance")
+		}
+		if lg != nil {
+			tg = append(tg, lg.tags()...)
 		}
 		return tg
 	}
@@ -422,6 +451,56 @@ func bubble(c *explore.Ctx, sp spec, sh sharder) (out outcome) {
 			tick(o, 0)
 		}
 	}
+	// part 3: one LONG outage, counted in failed submission attempts of the affected stream(s), then (optionally) a restart
+	if lg != nil {
+		stop := func(f *world.Fail) bool {
+			tg := tags()
+			if f.Clause == "declines-only-while-waiting" && len(extraTags) > 0 {
+				// the listed residual finding (an empty block above the data watermark counted as pending while the data
+				// loop is busy): recorded once per history, and the run goes on so that everything after it stays checked
+				if len(out.also) == 0 {
+					out.also = append(out.also, also{f, tg})
+				}
+				extraTags = nil
+				return false
+			}
+			out.fail, out.tags = f, tg
+			return true
+		}
+		out.events = append(out.events, lg.describe())
+		if lg.kind != longLost {
+			sawOutage = true
+		} else {
+			sawLost |= lg.stream
+		}
+		lg.on = true
+		el := 0
+		for el < lg.capBlocks() && !lg.done() {
+			if lg.fill {
+				if f := produce(false, false); f != nil && stop(f) {
+					return
+				}
+			}
+			k := 1
+			if lg.kind == longLost && el > int(limit) {
+				k = 10 // an unanswered attempt lasts 60 DA blocks: the harness looks in every 10 DA blocks
+			}
+			time.Sleep(time.Duration(k) * daBlock)
+			synctest.Wait()
+			el += k
+		}
+		lg.on = false
+		out.longFailed, out.exhausted = lg.failed, lg.exhausted()
+		fmt.Fprintf(&sig, "[O s%d k%d n%d f%v h%d/d%d]", lg.stream, lg.kind, lg.n, lg.fill, lg.failed[0], lg.failed[1])
+		out.events = append(out.events, fmt.Sprintf("the outage is over after %d DA blocks (%d header / %d data submission attempts failed); from now on the DA layer accepts", el, lg.failed[0], lg.failed[1]))
+		if lg.restart != 0 {
+			out.events = append(out.events, map[int]string{restartCrash: "crash+restart", restartClean: "clean-stop+restart"}[lg.restart])
+			if f := restart(lg.restart); f != nil {
+				out.fail, out.tags = f, tags()
+				return
+			}
+		}
+	}
 	// the DA accepts; after both loops ran (two DA blocks, which also covers the longest back-off) production resumes.
 	// After a history with a lost request the node is first given lostHorizon accepting DA blocks to give the
 	// unanswered call up and send the blobs again.
@@ -472,6 +551,11 @@ func TestCheck(t *testing.T) {
 	// the unanswered call for longer than the whole pattern, so a second such block could only be seen after a restart)
 	lazyLost := lazySpec{blocks: lazyBlocks, lostBlocks: vf.Pick(r, 1, 1)}
 	lazyLostRestarts := vf.Pick(r, 0, 1)
+	// part 3 / 3b: long outages around the retry budget of the code under test
+	thorough := vf.Pick(r, 0, 1) == 1
+	longPart := spec{depth: vf.Pick(r, 2, 3), long: &longSpec{lens: longLens(thorough)}}
+	longBudgets := map[string]int{"outage": 0, "restart": 0} // the prefix is made of production steps and accepting DA blocks only
+	lazyLong := lazySpec{blocks: vf.Pick(r, 2, 3), long: longPart.long}
 	r.Assume = []string{
 		"virtual time; DA block time 1 s; a DA outage rejects every Submit during one DA block with a generic error",
 		"'genuinely still waiting' is read in the weakest way: committed blocks whose header, or non-empty data, has not been acknowledged by the DA layer, counted once per block",
@@ -479,6 +563,7 @@ func TestCheck(t *testing.T) {
 		fmt.Sprintf("DA outages have two forms: a DA block in which every Submit is ANSWERED with a generic error, and a DA block in which the header submissions, the data submissions or both get NO ANSWER at all (neither success nor error: the DA double logs the request, stores nothing, and the call returns only when its context is done, with the context's error); the unanswered calls stay open when that DA block is over, every later request is answered 'accepted'. The node cannot tell a lost request from a slow one before it gives the call up, so after a history with a lost request the closing phase is %d accepting DA blocks longer (the code under test abandons an attempt after 60 s; 'never stops permanently' is checked as 'production has resumed after %d+3 DA blocks in which the DA layer accepted every submission it was sent'). The declines-only-while-waiting oracle stays armed all the time: blocks whose request got no answer are genuinely unacknowledged", lostHorizon, lostHorizon),
 		"node restarts: between any two actions the process may end — crash (from that instant no call of the old process reaches the store, the DA layer, the executor or the sequencer) or clean stop (the loops are cancelled and run to their end first; a Submit call made with the cancelled context is answered 'cancelled') — and a NEW Manager is constructed over the key/value image the old process left behind, with the same DA layer, executor and sequencing layer; the submission loops are started again and the harness keeps acting between two DA blocks. The oracle is the same before and after a restart (the ground truth is the DA double's acknowledgement log and the chain in the image, both of which outlive the process). Restarts happen at action boundaries only: no crash in the middle of a store write or of a DA call (after such a crash the node cannot know about an acceptance, so counting the block as waiting is not a violation; C04/C06/C07 explore those instants). The on-disk cache files are not part of this world (root directory absent); the pending counts do not use them. A node that cannot be constructed over its own image is reported (clause startup)",
 		"part 2: lazy mode (block interval 1 s, idle interval 2 s), idle chain (only empty batches), real AggregationLoop and submission loops under the cooperative scheduler in canonical order; every outage pattern over 6/8 DA blocks, limits 1-2, with up to 1/2 restarts (crash or clean stop; new Manager and new loops over the image left behind) at any DA-block boundary including the one before the closing phase; after the DA accepted everything for 4 DA blocks a block must appear within two idle intervals and a block interval. Part 2b: one of the DA blocks (any) gives no answer to the requests sent during them (on an idle chain: header submissions), every other DA block accepting or down, up to 0/1 restarts; closing phase 4+" + fmt.Sprint(lostHorizon) + " accepting DA blocks",
+		fmt.Sprintf("part 3 (LONG outages): one call of the submission helper makes at most %d attempts (read from the code under test through the hook block.VerifMaxSubmitAttempts; back-off between two answered attempts at most one DA block, two DA blocks after 'not included in a block'; an attempt that gets no answer is abandoned after 60 s) and then gives the submission up until the next DA tick. A long outage is measured in what the node sees of it: after a prefix of production steps and accepting DA blocks the DA layer fails the next n submission ATTEMPTS of the header stream, of the data stream, or of both (each stream counted on its own) and accepts every request after them; the failed attempts are all answered with a generic error, all answered 'not included in a block', or all given no answer. n takes the values listed under long_part.outage_lengths_in_failed_attempts (budget-1: the last attempt of the first call succeeds; budget: the first call is given up and the next tick succeeds at once; budget+1; 2*budget+1: two calls are given up). While the outage lasts the harness either only waits or makes a production attempt (non-empty batch) before every step (1 DA block; 10 DA blocks during an unanswered outage once limit+1 steps are done), with the declines-only-while-waiting oracle armed. If a stream stops sending before n of its attempts have failed (nothing pending for it; a node that has given up) the outage is over after 2n+n/budget+10 DA blocks (answered kinds) or 61n+70 DA blocks (unanswered) anyway: from then on the DA layer accepts whatever it is sent. Then no restart / crash + restart / clean stop + restart, then the closing phase and the oracle of part 1 (3 accepting DA blocks, %d more after an unanswered outage, then production must not be declined and nothing may be left unacknowledged). In part 3 the listed residual finding (trigger empty-blocks-counted-as-pending-data) does not end a history: it is recorded once and the history goes on to the closing phase. Part 3b: the same on the idle chain in lazy mode after every outage pattern over lazy_long_part.da_blocks DA blocks (there only headers are submitted: the outage hits every request; the chain fills up to the limit by itself), closing phase and oracle of part 2", retryBudget(), lostHorizon),
 		"the exploration is dealt out to 16 processes by a hash of the first half of each history (each process walks the prefix tree, exactly one continues below a prefix); evaluations counts complete histories only, each once",
 	}
 	run := func(c *explore.Ctx) outcome { return body(t, c, spec{depth: depth}, sh) }
@@ -487,9 +572,27 @@ func TestCheck(t *testing.T) {
 		var lz struct {
 			Lazy    bool
 			Lost    bool
+			Long    bool
 			Choices []explore.Point
 		}
-		if _, err := r.LoadReplay(&lz); err == nil && lz.Lost && lz.Lazy {
+		if _, err := r.LoadReplay(&lz); err == nil && lz.Long {
+			explore.ReplayOne(lz.Choices, func(c *explore.Ctx) {
+				var o outcome
+				if lz.Lazy {
+					o = lazyBody(t, c, lazyLong, sh)
+				} else {
+					o = body(t, c, longPart, sh)
+				}
+				for _, a := range o.also {
+					fmt.Println(a.fail.Msg, o.events)
+					r.Report(vf.Violation{Clause: a.fail.Clause, Tags: a.tags, Msg: a.fail.Msg, History: lz})
+				}
+				if o.fail != nil {
+					fmt.Println(o.fail.Msg, o.events)
+					r.Report(vf.Violation{Clause: o.fail.Clause, Tags: o.tags, Msg: o.fail.Msg, History: lz})
+				}
+			})
+		} else if _, err := r.LoadReplay(&lz); err == nil && lz.Lost && lz.Lazy {
 			explore.ReplayOne(lz.Choices, func(c *explore.Ctx) {
 				if o := lazyBody(t, c, lazyLost, sh); o.fail != nil {
 					fmt.Println(o.fail.Msg, o.events)
@@ -525,7 +628,14 @@ func TestCheck(t *testing.T) {
 	}
 	var full, lostFull, points atomic.Int64           // complete histories of this process (prefix stubs of other shards are not counted)
 	var lostRuns, lostReqs, lazyLostRuns atomic.Int64 // histories in which at least one DA request got no answer / such requests
-	var sampled [5]atomic.Int32
+	var sampled [8]atomic.Int32
+	var longFull, lazyLongFull, longExhausted, lazyLongExhausted, longFailedReqs atomic.Int64 // part 3 / 3b
+	countLong := func(o outcome, exhausted *atomic.Int64) {
+		longFailedReqs.Add(int64(o.longFailed[0] + o.longFailed[1]))
+		if o.exhausted {
+			exhausted.Add(1)
+		}
+	}
 	const sigKey = "signature(P=produced,d=declined,t=DA block,x=outage,h/a/b=DA block whose header/data/all requests get no answer,T=lostHorizon accepting DA blocks,K=crash+restart,R=clean stop+restart)"
 	handle := func(c *explore.Ctx, o outcome, count *atomic.Int64, history any) {
 		if o.skipped || (o.early && !sh.mine(c)) {
@@ -538,6 +648,12 @@ func TestCheck(t *testing.T) {
 			lostReqs.Add(int64(o.lost))
 		}
 		restarted := strings.ContainsAny(o.sig, "KR")
+		if count == &longFull {
+			countLong(o, &longExhausted)
+		}
+		for _, a := range o.also {
+			r.Report(vf.Violation{Clause: a.fail.Clause, Tags: a.tags, Msg: fmt.Sprintf("%s\n events: %v", a.fail.Msg, o.events), Cost: len(o.events), History: history})
+		}
 		if o.fail != nil {
 			r.Report(vf.Violation{Clause: o.fail.Clause, Tags: o.tags, Msg: fmt.Sprintf("%s\n events: %v", o.fail.Msg, o.events), Cost: len(o.events), History: history})
 			r.Outcome("fail:" + o.fail.Clause)
@@ -552,12 +668,24 @@ func TestCheck(t *testing.T) {
 			if o.lost > 0 {
 				k = 3
 			}
+			if o.exhausted {
+				k = 5
+				if o.lost > 0 {
+					k = 6
+				}
+			}
 			if sampled[k].Add(1) == 1 {
 				r.Sample(map[string]any{"events": o.events, "requests_without_answer": o.lost, sigKey: o.sig})
 			}
 		}
 	}
+	// development aid (never set by the registered commands): VERIF_C08_ONLY=long runs part 3 / 3b only; such a run is
+	// reported as capped, never as exhaustive
+	onlyLong := os.Getenv("VERIF_C08_ONLY") == "long"
 	st := explore.Explore(explore.Config{Budgets: budgets, Deadline: vf.Pick(r, 240*time.Second, 25*time.Minute)}, func(c *explore.Ctx) {
+		if onlyLong {
+			return
+		}
 		handle(c, run(c), &full, c.Choices())
 	})
 	for _, m := range st.Nondet {
@@ -565,6 +693,9 @@ func TestCheck(t *testing.T) {
 	}
 	// part 1b: lost requests
 	st1b := explore.Explore(explore.Config{Budgets: lostBudgets, Deadline: vf.Pick(r, 240*time.Second, 15*time.Minute)}, func(c *explore.Ctx) {
+		if onlyLong {
+			return
+		}
 		handle(c, body(t, c, lostSpec, sh), &lostFull, map[string]any{"Lost": true, "Choices": c.Choices()})
 	})
 	for _, m := range st1b.Nondet {
@@ -582,6 +713,9 @@ func TestCheck(t *testing.T) {
 			lazyLostRuns.Add(1)
 			lostReqs.Add(int64(o.lost))
 		}
+		if count == &lazyLongFull {
+			countLong(o, &lazyLongExhausted)
+		}
 		if o.fail != nil {
 			if o.fail.Clause == "engine" {
 				r.EngineError(o.fail.Msg)
@@ -595,23 +729,54 @@ func TestCheck(t *testing.T) {
 		if len(o.events) >= 2 && strings.Contains(o.sig, "restart") && sampled[2].Add(1) == 1 {
 			r.Sample(map[string]any{"part": "lazy idle chain", "result": o.sig})
 		}
-		if o.lost > 0 && sampled[4].Add(1) == 1 {
+		if o.lost > 0 && !o.exhausted && sampled[4].Add(1) == 1 {
 			r.Sample(map[string]any{"part": "lazy idle chain", "requests_without_answer": o.lost, "result": o.sig})
+		}
+		if o.exhausted && sampled[7].Add(1) == 1 {
+			r.Sample(map[string]any{"part": "lazy idle chain, long outage", "failed_attempts": o.longFailed[0], "result": o.sig})
 		}
 	}
 	st2 := explore.Explore(explore.Config{Budgets: map[string]int{"restart": lazyRestarts}, Deadline: vf.Pick(r, 120*time.Second, 10*time.Minute)}, func(c *explore.Ctx) {
+		if onlyLong {
+			return
+		}
 		handleLazy(c, lazyBody(t, c, lazySpec{blocks: lazyBlocks}, sh), &lazyFull, map[string]any{"Lazy": true, "Choices": c.Choices()})
 	})
 	for _, m := range st2.Nondet {
 		r.EngineError("nondeterminism (lazy part): " + m)
 	}
 	st2b := explore.Explore(explore.Config{Budgets: map[string]int{"restart": lazyLostRestarts}, Deadline: vf.Pick(r, 120*time.Second, 10*time.Minute)}, func(c *explore.Ctx) {
+		if onlyLong {
+			return
+		}
 		handleLazy(c, lazyBody(t, c, lazyLost, sh), &lazyLostFull, map[string]any{"Lazy": true, "Lost": true, "Choices": c.Choices()})
 	})
 	for _, m := range st2b.Nondet {
 		r.EngineError("nondeterminism (lazy lost-request part): " + m)
 	}
+	// part 3: long outages (normal mode); part 3b: the same on the idle chain in lazy mode
+	st3 := explore.Explore(explore.Config{Budgets: longBudgets, Deadline: vf.Pick(r, 240*time.Second, 20*time.Minute)}, func(c *explore.Ctx) {
+		handle(c, body(t, c, longPart, sh), &longFull, map[string]any{"Long": true, "Choices": c.Choices()})
+	})
+	for _, m := range st3.Nondet {
+		r.EngineError("nondeterminism (long-outage part): " + m)
+	}
+	st3b := explore.Explore(explore.Config{Budgets: map[string]int{"restart": 0}, Deadline: vf.Pick(r, 240*time.Second, 15*time.Minute)}, func(c *explore.Ctx) {
+		handleLazy(c, lazyBody(t, c, lazyLong, sh), &lazyLongFull, map[string]any{"Lazy": true, "Long": true, "Choices": c.Choices()})
+	})
+	for _, m := range st3b.Nondet {
+		r.EngineError("nondeterminism (lazy long-outage part): " + m)
+	}
 	var caps []string
+	if onlyLong {
+		caps = append(caps, "development aid VERIF_C08_ONLY=long: parts 1, 1b, 2, 2b were not run")
+	}
+	if st3.Capped != "" {
+		caps = append(caps, "long-outage part: "+st3.Capped)
+	}
+	if st3b.Capped != "" {
+		caps = append(caps, "lazy long-outage part: "+st3b.Capped)
+	}
 	if st.Capped != "" {
 		caps = append(caps, st.Capped)
 	}
@@ -624,20 +789,27 @@ func TestCheck(t *testing.T) {
 	if st2b.Capped != "" {
 		caps = append(caps, "lazy lost-request part: "+st2b.Capped)
 	}
-	tot, counted := sumOverShards(sh, []int64{full.Load(), lostFull.Load(), lazyFull.Load(), lostRuns.Load(), lazyLostRuns.Load(), lostReqs.Load(), lazyLostFull.Load()})
+	tot, counted := sumOverShards(sh, []int64{full.Load(), lostFull.Load(), lazyFull.Load(), lostRuns.Load(), lazyLostRuns.Load(), lostReqs.Load(), lazyLostFull.Load(),
+		longFull.Load(), lazyLongFull.Load(), longExhausted.Load(), lazyLongExhausted.Load(), longFailedReqs.Load()})
 	r.Finish(vf.Coverage{
-		Evaluations: full.Load() + lostFull.Load() + lazyFull.Load() + lazyLostFull.Load(), DistinctNontrivial: int64(r.DistinctOutcomes()), States: int64(r.DistinctOutcomes()), Transitions: points.Load(),
+		Evaluations: full.Load() + lostFull.Load() + lazyFull.Load() + lazyLostFull.Load() + longFull.Load() + lazyLongFull.Load(), DistinctNontrivial: int64(r.DistinctOutcomes()), States: int64(r.DistinctOutcomes()), Transitions: points.Load(),
 		Rule: "part 1: every action sequence of the depth bound over {produce non-empty, produce empty, one DA block with accepting DA, one DA block of DA outage (every request answered with an error; at most max_outage_blocks), crash + restart, clean stop + restart (together at most max_restarts; a restart = a NEW Manager and new submission loops over the key/value image the old process left behind, same DA layer / executor / sequencing layer)} × limit {1,2,3} × initial height {1,3}, on the real production step and the real submission loops under virtual time, each followed by three accepting DA blocks and one production attempt; " +
 			"part 1b (lost requests): every action sequence of lost_part.depth steps over the same alphabet (bounds lost_part.max_outage_blocks / max_restarts) in which 1..lost_part.max_lost_request_blocks steps — at any positions but the first, where nothing is committed yet — are DA blocks whose header submissions / data submissions / both get NO answer (the call stays open until the caller gives it up; afterwards the DA layer accepts), × limit {1,2,3} × initial height {1,3}, each followed by lost_request_horizon_da_blocks + 3 accepting DA blocks and one production attempt; " +
-			"part 2 (lazy mode, idle chain, real AggregationLoop): every outage pattern over lazy_da_blocks DA blocks × limit {1,2} × at most lazy_max_restarts restarts (crash or clean stop) at the DA-block boundaries; part 2b: the same in which lazy_lost_part.max_lost_request_blocks of the DA blocks (any of them) is a DA block whose requests get NO answer, the others accepting or down in every pattern, with at most lazy_lost_part.max_restarts restarts, closing phase lost_request_horizon_da_blocks DA blocks longer; distinct = distinct produced/declined/restarted signatures",
+			"part 2 (lazy mode, idle chain, real AggregationLoop): every outage pattern over lazy_da_blocks DA blocks × limit {1,2} × at most lazy_max_restarts restarts (crash or clean stop) at the DA-block boundaries; part 2b: the same in which lazy_lost_part.max_lost_request_blocks of the DA blocks (any of them) is a DA block whose requests get NO answer, the others accepting or down in every pattern, with at most lazy_lost_part.max_restarts restarts, closing phase lost_request_horizon_da_blocks DA blocks longer; " +
+			"part 3 (long outages): every prefix of long_part.prefix_depth steps over {produce non-empty, produce empty, one accepting DA block} × limit {1,2,3} × initial height {1,3} × affected stream {headers, data, both} × kind of failure {generic error, 'not included in a block', no answer} × outage length n in long_part.outage_lengths_in_failed_attempts (boundary values around the retry budget of the code under test) × {no production during the outage, a production attempt before every step of it} × {no restart, crash + restart, clean stop + restart} after the outage, each followed by 3 (after an unanswered outage lost_request_horizon_da_blocks + 3) accepting DA blocks and one production attempt; " +
+			"part 3b (lazy mode, idle chain): every outage pattern over lazy_long_part.da_blocks DA blocks × limit {1,2} × kind of failure × outage length n (all requests fail) × restart after the outage {none, crash, clean stop}, closing phase and production window of part 2; distinct = distinct produced/declined/restarted signatures",
 		Exhaustive: true, Caps: caps,
 		Bounds: map[string]any{"depth": depth, "limits": []int{1, 2, 3}, "initial_heights": []int{1, 3}, "max_outage_blocks": 3, "max_restarts": maxRestarts, "restart_kinds": []string{"crash", "clean-stop"}, "lazy_da_blocks": lazyBlocks, "lazy_limits": []int{1, 2}, "lazy_max_restarts": lazyRestarts,
 			"lost_part":                      map[string]any{"depth": lostSpec.depth, "max_lost_request_blocks": lostSpec.lostBlocks, "lost_request_kinds": []string{"header requests", "data requests", "both"}, "placements_of_lost_blocks": len(lostPlacements(lostSpec.depth, lostSpec.lostBlocks)), "max_outage_blocks": lostBudgets["outage"], "max_restarts": lostBudgets["restart"]},
 			"lazy_lost_part":                 map[string]any{"da_blocks": lazyLost.blocks, "max_lost_request_blocks": lazyLost.lostBlocks, "placements_of_lost_blocks": len(lostPlacements(lazyLost.blocks+1, lazyLost.lostBlocks)), "max_restarts": lazyLostRestarts},
 			"lost_request_horizon_da_blocks": lostHorizon,
+			"long_part": map[string]any{"retry_budget_read_from_code": retryBudget(), "outage_lengths_in_failed_attempts": longPart.long.lens, "prefix_depth": longPart.depth, "streams": []string{"headers", "data", "both"}, "failure_kinds": longKindName[:],
+				"production_during_outage": []string{"none", "attempt before every step"}, "restart_after_outage": []string{"none", "crash", "clean-stop"}, "limits": []int{1, 2, 3}, "initial_heights": []int{1, 3}},
+			"lazy_long_part": map[string]any{"da_blocks": lazyLong.blocks, "outage_lengths_in_failed_attempts": lazyLong.long.lens, "failure_kinds": longKindName[:], "restart_after_outage": []string{"none", "crash", "clean-stop"}, "limits": []int{1, 2}},
 			"measured_over_all_processes": map[string]any{"processes_counted": counted, "part1_histories": tot[0], "part1b_histories": tot[1], "part2_lazy_histories": tot[2],
 				"part2b_lazy_histories":                             tot[6],
-				"part1b_histories_in_which_a_request_got_no_answer": tot[3], "part2b_histories_in_which_a_request_got_no_answer": tot[4], "requests_that_got_no_answer": tot[5]}},
+				"part1b_histories_in_which_a_request_got_no_answer": tot[3], "part2b_histories_in_which_a_request_got_no_answer": tot[4], "requests_that_got_no_answer": tot[5],
+				"part3_long_outage_histories": tot[7], "part3b_lazy_long_outage_histories": tot[8], "part3_histories_in_which_a_stream_used_up_a_whole_retry_budget": tot[9], "part3b_histories_in_which_a_stream_used_up_a_whole_retry_budget": tot[10], "part3_and_3b_failed_attempts_of_long_outages": tot[11]}},
 	})
 }
 
